@@ -155,8 +155,21 @@ def add_linear_scale(rng, segs):
     for s in segs:
         for x in (s.entries or []):
             if isinstance(x.idx, tuple) and x.idx[0] == "full" and x.idx[2] in (1, 2, 3, 5, 6, 7, 10) \
-                    and x.path not in done and rng.random() < 0.5:
+                    and x.path not in done and rng.random() < 0.7:
                 done.add(x.path)
+                if rng.random() < 0.4:
+                    # a sensor scaling (they compute with in-place NumPy operations) reading the raw data
+                    import c13_lib
+                    kind = rng.choice(["Strain", "RTD", "Thermistor"])
+                    x.props += [G.Prop(b"NI_Scale[0]_Scale_Type", G.T_STRING, kind.encode()),
+                                G.Prop(("NI_Scale[0]_%s_Input_Source" % kind).encode(), 7, struct.pack("<L", 0xFFFFFFFF)),
+                                G.Prop(b"NI_Number_Of_Scales", 7, struct.pack("<L", 1))]
+                    for name, val in c13_lib.SENSOR_DEFAULTS[kind]:
+                        if isinstance(val, int):
+                            x.props.append(G.Prop(("NI_Scale[0]_" + name).encode(), 7, struct.pack("<L", val)))
+                        else:
+                            x.props.append(G.Prop(("NI_Scale[0]_" + name).encode(), 10, struct.pack("<d", val)))
+                    continue
                 x.props += [G.Prop(b"NI_Scale[0]_Scale_Type", G.T_STRING, b"Linear"),
                             G.Prop(b"NI_Scale[0]_Linear_Slope", 10, struct.pack("<d", rng.choice([2.0, -0.5, 1e-3]))),
                             G.Prop(b"NI_Scale[0]_Linear_Y_Intercept", 10, struct.pack("<d", rng.choice([0.0, 1.5]))),
@@ -174,11 +187,21 @@ def gen_case(rng):
             data = data[:len(data) - rng.randint(1, min(len(segs[-1].data), 9))]
             kind = "daqmx_truncated"
         return data, kind, R.describe_segs(segs)
-    segs = G.gen_file(rng, G.GenParams(max_segs=4, max_chans=3, max_vals=4, max_chunks=3))
+    if r < 0.23:
+        # more than 100 segments, channels whose segment structure diverges only after the first 100
+        import lazygen
+        data, _ = lazygen.build(lazygen.gen_many_spec(rng))
+        return data, "many_segments", None
     kind = "wellformed"
     if rng.random() < 0.5:
+        # scaled channels: numeric types only, half of them float64 (the type the scalings compute in, so that
+        # a scaling working in place would touch the channel's own raw array)
+        segs = G.gen_file(rng, G.GenParams(max_segs=4, max_chans=3, max_vals=4, max_chunks=3,
+                                           types=[10, 10, 10, 10, 9, 3, 5, 2, 7]))
         segs = add_linear_scale(rng, segs)
         kind = "scaled"
+    else:
+        segs = G.gen_file(rng, G.GenParams(max_segs=4, max_chans=3, max_vals=4, max_chunks=3))
     data = G.ser_file(segs)
     if r > 0.8 and segs[-1].data:
         data = data[:len(data) - rng.randint(1, len(segs[-1].data))]
